@@ -611,6 +611,101 @@ pub fn analyse(cand: &Cand, w: &World, ctx: &Ctx, l: &mut Local) -> Option<Accep
     Some(Accepted { cand: cand.clone(), text, ast: apol.clone(), typed, impossible })
 }
 
+/// templates: scope forms with slots x bodies, each linked with two bindings
+pub fn template_candidates() -> Vec<(Cand, (Option<Uid>, Option<Uid>))> {
+    let gs = guards();
+    let ga = guarded();
+    let sf = safe();
+    let mut bodies: Vec<(E, bool)> = Vec::new();
+    for i in [0usize, 2, 4, 7] {
+        bodies.push((E::and(gs[i].clone(), ga[i].clone()), true));
+        bodies.push((ga[i].clone(), false));
+        bodies.push((E::and(E::or(gs[i].clone(), E::Bool(true)), ga[i].clone()), false));
+        bodies.push((E::ite(gs[i].clone(), sf[0].clone(), ga[i].clone()), false));
+    }
+    for u in [0usize, 2, 3, 5] {
+        bodies.push((sf[u].clone(), true));
+    }
+    let pscopes = [PR::Eq(Ref::Slot), PR::In(Ref::Slot), PR::IsIn("User".into(), Ref::Slot), PR::Any];
+    let rscopes = [PR::Any, PR::Eq(Ref::Slot), PR::In(Ref::Slot), PR::IsIn("Doc".into(), Ref::Slot)];
+    let mut out = Vec::new();
+    let mut k = 0usize;
+    for ps in &pscopes {
+        for rs in &rscopes {
+            if *ps == PR::Any && *rs == PR::Any {
+                continue;
+            }
+            for (body, must) in &bodies {
+                k += 1;
+                let mut pol = Pol::simple(&format!("t{k}"), if k % 4 == 0 { Effect::Forbid } else { Effect::Permit }, Some(body.clone()));
+                pol.action = AS::Eq(view());
+                pol.principal = ps.clone();
+                pol.resource = rs.clone();
+                let pb = |x: Uid| if pol.principal_slot() { Some(x) } else { None };
+                let rb = |x: Uid| if pol.resource_slot() { Some(x) } else { None };
+                // principal-side bindings: the user itself / a group it may be in; resource-side: the doc / its group
+                let binds = [(pb(if matches!(ps, PR::Eq(_)) { ua() } else { gg() }), rb(if matches!(rs, PR::Eq(_)) { dd() } else { gg() })), (pb(ub()), rb(gh()))];
+                for bnd in binds {
+                    // must-accept only for bindings of the slot's natural type
+                    let natural = bnd.0.as_ref().map(|u| if matches!(ps, PR::Eq(_)) { u.ty == "User" } else { u.ty == "Group" }).unwrap_or(true)
+                        && bnd.1.as_ref().map(|u| if matches!(rs, PR::Eq(_)) { u.ty == "Doc" } else { u.ty == "Group" }).unwrap_or(true);
+                    out.push((Cand { pol: pol.clone(), must_accept: *must && natural }, bnd));
+                }
+            }
+        }
+    }
+    out
+}
+
+pub fn analyse_template(cand: &Cand, bind: &(Option<Uid>, Option<Uid>), w: &World, ctx: &Ctx, l: &mut Local) -> Option<Accepted> {
+    let text = cand.pol.text(&Style::default());
+    let tid = cedar_policy::PolicyId::new(format!("T-{}", cand.pol.id));
+    let lid = cedar_policy::PolicyId::new(&cand.pol.id);
+    let t = match cedar_policy::Template::parse(Some(tid.clone()), &text) {
+        Ok(t) => t,
+        Err(e) => {
+            ctx.violation("gen:template-rejected", format!("{text}: {e}"), json!({"text": text}));
+            return None;
+        }
+    };
+    let mut pset = cedar_policy::PolicySet::new();
+    pset.add_template(t).ok()?;
+    let mut m = HashMap::new();
+    if let Some(pu) = &bind.0 {
+        m.insert(cedar_policy::SlotId::principal(), c_uid(pu));
+    }
+    if let Some(ru) = &bind.1 {
+        m.insert(cedar_policy::SlotId::resource(), c_uid(ru));
+    }
+    if let Err(e) = pset.link(tid, lid, m) {
+        ctx.violation("gen:link-failed", format!("{text}: {e}"), json!({"text": text}));
+        return None;
+    }
+    let validator = cedar_policy::Validator::new(w.schema.clone());
+    let strict = validator.validate(&pset, cedar_policy::ValidationMode::Strict);
+    let permissive = validator.validate(&pset, cedar_policy::ValidationMode::Permissive);
+    l.transitions += 2;
+    let strict_ok = strict.validation_errors().next().is_none();
+    let impossible = strict.validation_warnings().any(|w| matches!(w, cedar_policy::ValidationWarning::ImpossiblePolicy(_)));
+    l.case(hash_of(&(&cand.pol, bind)), if strict_ok { "template-accepted" } else { "template-rejected" }, true);
+    let rep = || json!({"template": text, "binding": format!("{bind:?}")});
+    if strict_ok && permissive.validation_errors().next().is_some() {
+        ctx.violation("strict-not-permissive", format!("template+link accepted in strict mode but rejected in permissive mode: {text} {bind:?}"), rep());
+    }
+    if cand.must_accept && !strict_ok {
+        let errs: Vec<String> = strict.validation_errors().map(|e| e.to_string()).collect();
+        ctx.violation("vacuity:template-rejected", format!("type-directed template (linked with {bind:?}) rejected by strict validation: {text}: {errs:?}"), rep());
+    }
+    if !strict_ok {
+        return None;
+    }
+    let aset: &ast::PolicySet = pset.as_ref();
+    let linked = aset.policies().next()?.clone();
+    // the reference policy is the textual substitution of the binding into the template
+    let subst = cand.pol.substitute(&cand.pol.id, bind.0.as_ref(), bind.1.as_ref());
+    Some(Accepted { cand: Cand { pol: subst, must_accept: cand.must_accept }, text: format!("{text} linked with {bind:?}"), ast: linked, typed: HashMap::new(), impossible })
+}
+
 fn replay(path: &str) -> i32 {
     let Some(doc) = std::fs::read_to_string(path).ok().and_then(|s| serde_json::from_str::<serde_json::Value>(&s).ok()) else {
         eprintln!("cannot read {path}");
@@ -720,6 +815,22 @@ pub fn run(tier: Tier, replay_file: Option<&str>) -> i32 {
             acc
         })
         .collect();
+    // templates, each linked (slots in ==, in, is..in scope positions)
+    let mut accepted = accepted;
+    {
+        let tcands = template_candidates();
+        ctx.set_info("template_link_candidates", json!(tcands.len()));
+        let mut l = Local::default();
+        let mut n_acc = 0;
+        for (cand, bind) in &tcands {
+            if let Some(Some(a)) = ctx.guard("C03 validate template", || serde_json::to_value(cand).unwrap(), || analyse_template(cand, bind, &w, &ctx, &mut l)) {
+                n_acc += 1;
+                accepted.push(a);
+            }
+        }
+        ctx.set_info("template_links_accepted", json!(n_acc));
+        ctx.merge(l);
+    }
     ctx.set_info("accepted_policies", json!(accepted.len()));
     ctx.set_info("must_accept_policies", json!(cands.iter().filter(|c| c.must_accept).count()));
     for a in accepted.iter().step_by((accepted.len() / 6).max(1)) {
